@@ -52,6 +52,9 @@ type FunctionCall struct {
 func (fv *FunctionValidator) extractFunctionCalls(expression string) []FunctionCall {
 	var functionCalls []FunctionCall
 
+	// Text inside a string literal is data, not code: 'f(x)' is no function call.
+	expression = blankStringLiterals(expression)
+
 	// Use regex to match function call patterns: identifier(
 	funcPattern := regexp.MustCompile(`([a-zA-Z_][a-zA-Z0-9_]*)\s*\(`)
 	matches := funcPattern.FindAllStringSubmatchIndex(expression, -1)
@@ -74,6 +77,36 @@ func (fv *FunctionValidator) extractFunctionCalls(expression string) []FunctionC
 	}
 
 	return functionCalls
+}
+
+// blankStringLiterals replaces the content of single- and double-quoted string
+// literals by spaces, keeping every position of the expression unchanged.
+func blankStringLiterals(expression string) string {
+	if !strings.ContainsAny(expression, "'\"") {
+		return expression
+	}
+	out := []byte(expression)
+	var quote byte
+	for i := 0; i < len(out); i++ {
+		c := out[i]
+		if quote == 0 {
+			if c == '\'' || c == '"' {
+				quote = c
+			}
+			continue
+		}
+		if c == '\\' && i+1 < len(out) {
+			out[i], out[i+1] = ' ', ' '
+			i++
+			continue
+		}
+		if c == quote {
+			quote = 0
+			continue
+		}
+		out[i] = ' '
+	}
+	return string(out)
 }
 
 // isBuiltinFunction checks if it's a built-in function using the unified function registry
